@@ -70,10 +70,11 @@ def deps_of(e):
     return frozenset(d)
 
 
-def norm_cmp(e):
+def norm_cmp(e, render=None):
     """-> (key, pol) for comparison e being TRUE, using only '<' and '==' """
     op, l, r = e["op"], e["l"], e["r"]
-    ls, rs = show(l), show(r)
+    render = render or show
+    ls, rs = render(l), render(r)
     if op == "<":
         return "(%s < %s)" % (ls, rs), True
     if op == ">":
@@ -159,6 +160,76 @@ def implied(e, pol):
     if k == "Call" and e.get("short") == "operator bool" and e.get("recv") is not None:
         out |= implied(e["recv"], pol)
     return out
+
+
+UNSIGNED = ("unsigned", "uint8_t", "uint16_t", "uint32_t", "uint64_t", "size_t", "bool")
+
+
+def _is_unsigned(e):
+    t = (e.get("ct") or e.get("t") or "") if is_node(e) else ""
+    return any(u in t for u in UNSIGNED) and "*" not in t
+
+
+def normalize_guards(gs):
+    """canonical form of a set of guard triples (key, polarity, local) so that equivalent spellings of a test give one gate:
+    * a comparison of x with the literal 0 (`x > 0`, `x != 0`, `0 == x`, `x <= 0` for unsigned x) becomes the truth value of x,
+      which is also what `if (x)` / `if (!x)` record;
+    * next to a positive equality `x == c1`, negative equalities `x != c2` on the same x with another constant say nothing
+      (a `switch` case and the matching arm of an if / else-if chain)."""
+    out = set()
+    eq_pos = {}
+    parsed = []
+    for g in gs:
+        key, pol = g[0], g[1]
+        rest = tuple(g[2:])
+        node = KEYNODE.get(key)
+        if isinstance(node, tuple) and len(node) == 3 and node[0] == "cmp" and is_node(node[1]):
+            e, p = node[1], node[2]
+            op, l, r = e["op"], e["l"], e["r"]
+            etruth = (pol == p)
+            x = None
+            if is_zero_lit(r):
+                x, o = l, op
+            elif is_zero_lit(l):
+                x, o = r, {"<": ">", ">": "<", "<=": ">=", ">=": "<="}.get(op, op)
+            if x is not None:
+                xt = None
+                if o == "!=":
+                    xt = etruth
+                elif o == "==":
+                    xt = not etruth
+                elif o == ">" and _is_unsigned(x):
+                    xt = etruth
+                elif o == "<=" and _is_unsigned(x):
+                    xt = not etruth
+                if xt is not None:
+                    while is_node(x) and x["k"] == "Cast":
+                        x = x["e"]
+                    k2 = show(x)
+                    if k2 not in KEYNODE:
+                        _reg(k2, x)
+                    out.add((k2, xt) + rest)
+                    continue
+            if op in ("==", "!="):
+                cl, cr = (l.get("val") if is_node(l) and l["k"] != "Ref" or (is_node(l) and l.get("rk") not in ("local", "param")) else None), \
+                         (r.get("val") if is_node(r) and r["k"] != "Ref" or (is_node(r) and r.get("rk") not in ("local", "param")) else None)
+                is_eq = etruth == (op == "==")
+                if cr is not None and cl is None:
+                    parsed.append((g, show(l), cr, is_eq))
+                    if is_eq:
+                        eq_pos[show(l)] = cr
+                    continue
+                if cl is not None and cr is None:
+                    parsed.append((g, show(r), cl, is_eq))
+                    if is_eq:
+                        eq_pos[show(r)] = cl
+                    continue
+        out.add(tuple(g))
+    for g, xs, c, is_eq in parsed:
+        if not is_eq and xs in eq_pos and eq_pos[xs] != c:
+            continue  # implied by the positive equality on the same operand
+        out.add(tuple(g))
+    return tuple(sorted(out, key=lambda t: (t[0], str(t[1:]))))
 
 
 def _is_version_pure(node):
